@@ -27,7 +27,7 @@ PROPERTIES = ["PharmpyProofs/C17/Properties.lean"]
 LEAN_SOURCES = ["PharmpyModel/C17/*.lean", "PharmpyModel/Generated/C17Task.lean", "PharmpyProofs/C17/*.lean", "Drivers/C17.lean"]
 TIME_LIMIT = {"quick": 900, "thorough": 3000}
 CASE_CPU_LIMIT = 30
-RULE = ("seeded programs of builder operations (new/tasks=, add_task with 0-3 predecessors in random order, "
+RULE = ("about 1 case in 40 is a NESTED execution on the real distributed dispatcher (LocalCluster in-process): a parent workflow in which 1-2 tasks call context.call_workflow on child workflows (grandchildren possible, two siblings alive at once), all graphs instances of 1-2 recipes so that live graphs share task names and positions but differ in static inputs; compared with the sequential evaluation (children first), exactly-once calls per (graph, task), key-disjointness of all submitted dicts. The other cases: seeded programs of builder operations (new/tasks=, add_task with 0-3 predecessors in random order, "
         "replace_task, insert_workflow with None/explicit predecessors incl. N:N, 1:N, N:1, N:M, "
         "+, Workflow()/WorkflowBuilder() copies, reading input_tasks/output_tasks between steps, "
         "add_task(t, predecessors=wb.output_tasks), insert_context on the builder mid-history, and the history "
@@ -47,7 +47,10 @@ TRUSTED = [
     "dask: get fires each needed key once after the keys it mentions (abstract scheduler; every observed firing order "
     "is replayed in the model); graph-literal rules for str/tuple/list static inputs",
     "harness/corr/c17.py (generator, term-building task family, canonicalisation by task name)",
-    "the distributed dispatcher (LocalCluster/Client.get, optimize_task_graph_for_dask_distributed) is outside: no cluster here",
+    "the distributed dispatcher is exercised for nested cases only (LocalCluster(processes=False) in the worker process); "
+    "distributed's scheduler and optimize_task_graph_for_dask_distributed/fuse are not modelled beyond dask's get contract",
+    "uuid4 freshness: every as_dask_dict call draws keys no other live graph has (stated as hypothesis of "
+    "scheduler_keys_distinct; checked on the real dicts of every case)",
 ]
 ASSUMPTIONS = [
     "task functions are pure; tasks are identified by object identity (nodes are numbered by the harness; "
@@ -244,8 +247,50 @@ def gen_case(rng: random.Random, tier: str):
             "close_shuffle": rng.randrange(1 << 30), "scheds": scheds, "seed": rng.randrange(1 << 30)}
 
 
+def gen_recipe(rng: random.Random, n: int):
+    """a small one-sink DAG on tasks 0..n-1 (names = positions): [(task, [predecessors])] in adding order"""
+    rec, has_succ = [], set()
+    for i in range(n - 1):
+        ps = rng.sample(range(i), rng.randint(0, min(2, i))) if i else []
+        rec.append((i, ps))
+        has_succ |= set(ps)
+    last = [i for i in range(n - 1) if i not in has_succ]
+    rng.shuffle(last)
+    rec.append((n - 1, last))
+    return rec
+
+
+def gen_nested(rng: random.Random, tier: str):
+    """A parent workflow in which 1-2 tasks run a child workflow through context.call_workflow (children may call
+    grandchildren).  Graphs are instances of few recipes, so different live graphs routinely have tasks with the
+    SAME name at the SAME position, with different static inputs (hence different values)."""
+    recipes = [gen_recipe(rng, rng.randint(2, 5)) for _ in range(rng.randint(1, 2))]
+    graphs = []
+
+    def instance(depth):
+        g = len(graphs)
+        rec = rng.choice(recipes)
+        graphs.append(None)
+        n = len(rec)
+        ncall = 0 if depth >= 2 else (rng.randint(1, 2) if depth == 0 else (1 if rng.random() < 0.25 else 0))
+        callers = sorted(rng.sample(range(n), min(ncall, n)))
+        pctx = rng.choice([0.0, 0.0, 0.3])
+        tasks, calls = [], {}
+        for i in range(n):
+            tasks.append([i, i in callers or rng.random() < pctx, [["s", f"g{g}s{i}"]] if rng.random() < 0.8 else []])
+        ops = [["new", 0]] + [["add", 0, t, ps if ps else None] for t, ps in rec]
+        graphs[g] = {"tasks": tasks, "ops": ops, "calls": calls}
+        for c in callers:
+            calls[str(c)] = instance(depth + 1)
+        return g
+
+    instance(0)
+    return {"kind": "nested", "graphs": graphs, "seed": rng.randrange(1 << 30)}
+
+
 def gen_cases(rng: random.Random, n: int, tier: str):
-    return [gen_case(rng, tier) for _ in range(n)]
+    # about 1 case in 40 is a nested execution on the real distributed dispatcher (LocalCluster in-process)
+    return [gen_nested(rng, tier) if rng.random() < 0.025 else gen_case(rng, tier) for _ in range(n)]
 
 
 def corpus_cases():
@@ -289,12 +334,44 @@ def corpus_cases():
                           [4, False, [S("1")], 2], [5, False, [], 3], [6, False, []]],
              ops=[["newtasks", 0, [0, 1]], ["new", 1], ["add", 1, 2, None], ["add", 1, 3, 2], ["insert", 0, 1, [0]],
                   ["new", 2], ["add", 2, 4, None], ["add", 2, 5, 4], ["insert", 0, 2, [1]], ["addouts", 0, 6]]),
+        # nested execution: parent and child are instances of one diamond recipe; the last parent task calls the child
+        {"kind": "nested", "seed": 7, "graphs": [
+            {"tasks": [[0, False, [S("p0")]], [1, False, [S("p1")]], [2, False, [S("p2")]], [3, True, [S("p3")]]],
+             "ops": [["new", 0], ["add", 0, 0, None], ["add", 0, 1, [0]], ["add", 0, 2, [0]], ["add", 0, 3, [1, 2]]],
+             "calls": {"3": 1}},
+            {"tasks": [[0, False, [S("c0")]], [1, False, [S("c1")]], [2, False, [S("c2")]], [3, False, [S("c3")]]],
+             "ops": [["new", 0], ["add", 0, 0, None], ["add", 0, 1, [0]], ["add", 0, 2, [0]], ["add", 0, 3, [1, 2]]],
+             "calls": {}}]},
+        # two sibling children alive at once
+        {"kind": "nested", "seed": 8, "graphs": [
+            {"tasks": [[0, False, [S("p0")]], [1, True, []], [2, True, []], [3, False, []]],
+             "ops": [["new", 0], ["add", 0, 0, None], ["add", 0, 1, [0]], ["add", 0, 2, [0]], ["add", 0, 3, [1, 2]]],
+             "calls": {"1": 1, "2": 2}},
+            {"tasks": [[0, False, [S("a0")]], [1, False, [S("a1")]]], "ops": [["new", 0], ["add", 0, 0, None], ["add", 0, 1, [0]]], "calls": {}},
+            {"tasks": [[0, False, [S("b0")]], [1, False, [S("b1")]]], "ops": [["new", 0], ["add", 0, 0, None], ["add", 0, 1, [0]]], "calls": {}}]},
         # two sinks: documented refusal
         dict(base, tasks=[[0, False, []], [1, False, []]], ops=[["newtasks", 0, [0, 1]]]),
     ]
 
 
 def shrink(case):
+    if case.get("kind") == "nested":
+        gs = case["graphs"]
+        for g, gr in enumerate(gs):
+            for k, t in enumerate(gr["tasks"]):
+                if t[2]:
+                    c = json_copy(case)
+                    c["graphs"][g]["tasks"][k][2] = []
+                    yield c
+                if t[1] and str(t[0]) not in gr["calls"]:
+                    c = json_copy(case)
+                    c["graphs"][g]["tasks"][k][1] = False
+                    yield c
+            for key in list(gr["calls"]):
+                c = json_copy(case)
+                del c["graphs"][g]["calls"][key]
+                yield c
+        return
     ops = case["ops"]
     for i in range(len(ops) - 1, 0, -1):
         c = dict(case)
@@ -321,11 +398,17 @@ def shrink(case):
 
 # ---------------------------------------------------------------- real-code side
 
+def json_copy(x):
+    import json
+    return json.loads(json.dumps(x))
+
+
 def worker_init():
     global pharmpy, Task, Workflow, WorkflowBuilder, execute_workflow, insert_context, NullContext, local_dask
-    global dask, time, tempfile
+    global dask, time, tempfile, warnings
     import tempfile
     import time
+    import warnings
 
     import dask  # noqa
     import dask.local  # noqa
@@ -335,6 +418,11 @@ def worker_init():
     from pharmpy.workflows.contexts import NullContext  # noqa
     from pharmpy.workflows.workflow import insert_context  # noqa
     pharmpy.workflows.dispatchers.conf.dask_dispatcher = "threaded"
+    import logging
+    import distributed  # noqa  (its import installs its own log levels)
+    for name in ("distributed", "distributed.scheduler", "distributed.worker", "distributed.core", "distributed.client",
+                 "distributed.nanny", "distributed.batched", "distributed.comm"):
+        logging.getLogger(name).setLevel(logging.CRITICAL)   # the scheduler's own warnings would flood the check's output
 
 
 def render(x):
@@ -627,11 +715,195 @@ def run_case(case, drv):
     root = scratch_root()
     old_tmp = tempfile.tempdir
     tempfile.tempdir = str(root)
+    os.chdir("/dev/shm")         # a stable cwd: run() chdirs into a temporary directory and back
     try:
-        return _run_case(case, drv)
+        if case.get("kind") == "nested":
+            return _run_nested(case, drv)
+        from harness.corr import c17_util as U
+        U.reset()
+        with U.record_dicts():
+            r = _run_case(case, drv)
+        # every as_dask_dict() of the case (one per execution, the call_workflow path, the harness' own reads): the
+        # keys of different dicts must be disjoint apart from 'results' — they may meet on one scheduler
+        dicts = [d for _, d in U.SUBMITTED]
+        dup = U.shared_keys(dicts)
+        if dup:
+            r["mon"].append({"cls": "dask-keys-shared-between-graphs",
+                             "what": f"{len(dicts)} dask dicts were produced in this case; keys occurring in more than one "
+                                     f"(a scheduler running two of these graphs would confuse the tasks): {dup[:6]}"})
+        r["tags"].append("dicts-checked-for-shared-keys")
+        return r
     finally:
         tempfile.tempdir = old_tmp
         shutil.rmtree(root, ignore_errors=True)
+
+
+_HUNG = [False]       # per worker process: a nested execution deadlocked
+
+
+def _run_nested(case, drv):
+    """Nested execution on the real distributed dispatcher: tasks of the parent call context.call_workflow on child
+    workflows while the parent graph is live on the same scheduler."""
+    from harness.corr import c17_util as U
+    k, mon, tags = [], [], []
+    graphs = case["graphs"]
+    U.reset()
+    ctx = NullContext()
+    token = case["seed"]
+    wfs, info = {}, {}
+    for g, gr in enumerate(graphs):
+        objs, order, preds = {}, [], {}
+        for t in gr["tasks"]:
+            i, c, st = t[0], bool(t[1]), t[2]
+            name = t[3] if len(t) > 3 else i
+            if str(i) in gr["calls"]:
+                fn = U.CallFn(name, (g, i), gr["calls"][str(i)], f"sub-{token}-{g}-{i}")
+            elif c:
+                fn = U.CtxTermFn(name, (g, i))
+            else:
+                fn = U.TermFn(name, (g, i))
+            objs[i] = Task(f"t{name}", fn, *[a[1] for a in st])
+        wb = WorkflowBuilder(name=f"g{g}")
+        for op in gr["ops"]:
+            if op[0] == "new":
+                wb = WorkflowBuilder(name=f"g{g}")
+            elif op[0] == "add":
+                ps = as_list(op[3])
+                wb.add_task(objs[op[2]], predecessors=None if ps is None else [objs[p] for p in ps])
+                if op[2] not in order:
+                    order.append(op[2])
+                preds.setdefault(op[2], [])
+                preds[op[2]] += [p for p in (ps or []) if p not in preds[op[2]]]
+            else:
+                raise ValueError(f"nested cases use new/add only, got {op}")
+        wfs[g] = Workflow(wb)
+        info[g] = (order, preds, {t[0]: t for t in gr["tasks"]})
+        if g > 0:
+            U.CHILDREN[g] = wfs[g]
+    tags.append("nested")
+    tags.append(f"nested-graphs={len(graphs)}")
+    tags.append(f"nested-callers-in-parent={len(graphs[0]['calls'])}")
+
+    # ---- reference: sequential evaluation, children first (independent of dask and of the model)
+    def seq(g, realised):
+        order, preds, spec = info[g]
+        pos = {t: j for j, t in enumerate(order)}
+        val = {}
+        for t in order:
+            sp = spec[t]
+            name = sp[3] if len(sp) > 3 else t
+            args = ["ctx"] if sp[1] else []
+            if str(t) in graphs[g]["calls"]:
+                args.append(seq(graphs[g]["calls"][str(t)], realised))
+            args += [a[1] for a in sp[2]]
+            key = (lambda p: (bool(spec[p][1]), pos[p])) if realised else (lambda p: pos[p])
+            args += [val[p] for p in sorted(preds[t], key=key)]
+            val[t] = f"t{name}(" + ",".join(args) + ")"
+        sinks = [t for t in order if not any(t in preds[u] for u in order)]
+        return val[sinks[0]] if len(sinks) == 1 else None
+    ref, ref_realised = seq(0, False), seq(0, True)
+    ctx_inv = ref != ref_realised
+    reach, todo = set(), [0]
+    while todo:
+        g = todo.pop()
+        if g not in reach:
+            reach.add(g)
+            todo += list(graphs[g]["calls"].values())
+    expect_calls = {(g, t[0]): (1 if g in reach else 0) for g, gr in enumerate(graphs) for t in gr["tasks"]}
+
+    # ---- the real thing: distributed dispatcher (LocalCluster(processes=False)) with call_workflow from inside tasks
+    if _HUNG[0]:
+        # an earlier nested execution of this worker process never finished (its cluster is still around): do not
+        # start another one here; the ordinary cases go on
+        return {"k": [], "mon": [], "tags": ["nested-skipped-after-hang"], "nontrivial": False}
+    old = pharmpy.workflows.dispatchers.conf.dask_dispatcher
+    pharmpy.workflows.dispatchers.conf.dask_dispatcher = "distributed"
+    box = {}
+
+    def target():
+        try:
+            with warnings.catch_warnings():
+                warnings.simplefilter("ignore")
+                box["res"] = ["ok", execute_workflow(wfs[0], context=ctx)]
+        except BaseException as e:  # noqa
+            box["exc"] = e
+    import threading
+    rec = U.record_dicts()
+    rec.__enter__()
+    th = threading.Thread(target=target, daemon=True)
+    t0, marks = time.time(), [(time.time(), time.process_time())]
+    th.start()
+    hung = False
+    while th.is_alive():
+        th.join(1.0)
+        now = time.time()
+        marks.append((now, time.process_time()))
+        marks = [m for m in marks if now - m[0] <= 10.5]
+        idle = (now - marks[0][0] >= 9.5) and (marks[-1][1] - marks[0][1] < 0.2)
+        if (now - t0 >= 25 and idle) or now - t0 >= 150:
+            hung = True
+            break
+    rec.__exit__()
+    pharmpy.workflows.dispatchers.conf.dask_dispatcher = old
+    if hung:
+        _HUNG[0] = True
+        res = ["err", "does-not-finish"]
+        mon.append({"cls": "nested-execution-does-not-finish",
+                    "what": f"[distributed, nested] execute_workflow has not returned after {time.time() - t0:.0f} s "
+                            f"(idle: deadlock); call log so far {list(U.LOG)}; keys shared between the submitted graphs: "
+                            f"{U.shared_keys([d for _, d in U.SUBMITTED])[:6]}"})
+    elif "exc" in box:
+        e = box["exc"]
+        if type(e).__name__ in ("CaseTimeout", "Timeout") or not isinstance(e, Exception):
+            raise e
+        res = ["err", type(e).__name__]
+        mon.append({"cls": "execute-raised", "what": f"[distributed, nested] execute_workflow raised {type(e).__name__}: {str(e)[:200]}"})
+    else:
+        res = box["res"]
+    log = list(U.LOG)
+    dicts = [d for _, d in U.SUBMITTED]
+    tags.append(f"nested-dicts-submitted={len(dicts)}")
+    if res[0] == "ok":
+        if res != ["ok", ref]:
+            cls = "pred-order-context-task-moved" if ctx_inv and res == ["ok", ref_realised] else "nested-result-differs"
+            mon.append({"cls": cls, "what": f"[distributed, nested] execute_workflow gave {res[1]!r}; sequential topological "
+                                            f"evaluation (children first) gives {ref!r}"})
+        counts = {u: log.count(u) for u in expect_calls}
+        stray = [u for u in log if u not in expect_calls]
+        if counts != expect_calls or stray:
+            bad = {str(u): c for u, c in counts.items() if c != expect_calls[u]}
+            mon.append({"cls": "nested-call-count", "what": f"[distributed, nested] calls per (graph, task) differing from exactly "
+                                                            f"once: {bad}; call log {log}"})
+    dup = U.shared_keys(dicts)
+    if dup:
+        mon.append({"cls": "dask-keys-shared-between-graphs",
+                    "what": f"{len(dicts)} graphs were submitted to one scheduler; keys occurring in more than one: {dup[:6]}"})
+    # ---- K: the model evaluates children first and hands a child's value to its caller as first static input
+    if drv is not None:
+        memo = {}
+
+        def model_value(g):
+            if g in memo:
+                return memo[g]
+            gr = graphs[g]
+            tl = []
+            for t in gr["tasks"]:
+                st = list(t[2])
+                if str(t[0]) in gr["calls"]:
+                    cv = model_value(gr["calls"][str(t[0])])
+                    st = [["s", cv[1] if cv[0] == "ok" else "?"]] + st
+                tl.append([t[0], bool(t[1]), st, t[3] if len(t) > 3 else t[0]])
+            wt, wo = S(tl), S(wire_ops(gr["ops"]))
+            if g == 0:
+                m = drv.ask(["exec", wt, wo, 0])
+                memo[g] = m[3] if isinstance(m, list) and len(m) > 3 else ["err", "bad-op"]
+            else:
+                memo[g] = drv.ask(["callexec", wt, wo, 0])
+            return memo[g]
+        m_res = model_value(0)
+        if m_res != res:
+            k.append(f"[nested] result: model {m_res} code {res}")
+    return {"k": k, "mon": mon, "tags": tags, "nontrivial": len(reach) >= 2}
 
 
 def _run_case(case, drv):
